@@ -1378,8 +1378,8 @@ enum FileFault {
 
 #[derive(Clone, Debug)]
 enum NB {
-    Edge { path: String, present: bool, lines: usize, rows: Vec<Option<(usize, f64)>> },
-    Pair { path: String, present: bool, lines: usize, rows: Vec<Option<((usize, usize), f64)>> },
+    Edge { path: String, present: bool, lines: usize, has_header: bool, rows: Vec<Option<(usize, f64)>> },
+    Pair { path: String, present: bool, lines: usize, has_header: bool, rows: Vec<Option<((usize, usize), f64)>> },
     Combined(Vec<NB>),
 }
 
@@ -1498,9 +1498,9 @@ fn write_lookup(rng: &mut Rng, dir: &str, tag: &str, pair: bool, nonfinite: &mut
         prows = vec![None];
     }
     if pair {
-        NB::Pair { path, present, lines: nrows + 1, rows: prows }
+        NB::Pair { path, present, lines: nrows + 1, has_header: !matches!(fault, FileFault::Empty), rows: prows }
     } else {
-        NB::Edge { path, present, lines: nrows + 1, rows: erows }
+        NB::Edge { path, present, lines: nrows + 1, has_header: !matches!(fault, FileFault::Empty), rows: erows }
     }
 }
 
@@ -1525,10 +1525,11 @@ impl NB {
     }
     fn enc(&self, out: &mut Vec<String>) {
         match self {
-            NB::Edge { present, lines, rows, .. } => {
+            NB::Edge { present, lines, has_header, rows, .. } => {
                 out.push("e".into());
                 out.push(bit(*present).into());
                 out.push(lines.to_string());
+                out.push(bit(*has_header).into());
                 out.push(rows.len().to_string());
                 for r in rows {
                     match r {
@@ -1541,10 +1542,11 @@ impl NB {
                     }
                 }
             }
-            NB::Pair { present, lines, rows, .. } => {
+            NB::Pair { present, lines, has_header, rows, .. } => {
                 out.push("p".into());
                 out.push(bit(*present).into());
                 out.push(lines.to_string());
+                out.push(bit(*has_header).into());
                 out.push(rows.len().to_string());
                 for r in rows {
                     match r {
@@ -1568,8 +1570,8 @@ impl NB {
     /// every file readable and every row decodable
     fn sound(&self) -> bool {
         match self {
-            NB::Edge { present, rows, .. } => *present && rows.iter().all(|r| r.is_some()),
-            NB::Pair { present, rows, .. } => *present && rows.iter().all(|r| r.is_some()),
+            NB::Edge { present, has_header, rows, .. } => *present && *has_header && rows.iter().all(|r| r.is_some()),
+            NB::Pair { present, has_header, rows, .. } => *present && *has_header && rows.iter().all(|r| r.is_some()),
             NB::Combined(bs) => bs.iter().all(|b| b.sound()),
         }
     }
